@@ -740,6 +740,9 @@ func FunctionMap() map[string]physical.FunctionDetails {
 					OutputType:    octosql.String,
 					Strict:        true,
 					Function: func(values []octosql.Value) (octosql.Value, error) {
+						if values[1].Int < 0 {
+							return octosql.ZeroValue, fmt.Errorf("substr start index must be non-negative, got %d", values[1].Int)
+						}
 						if int64(len(values[0].Str)) <= values[1].Int {
 							return octosql.NewString(""), nil
 						}
@@ -751,11 +754,17 @@ func FunctionMap() map[string]physical.FunctionDetails {
 					OutputType:    octosql.String,
 					Strict:        true,
 					Function: func(values []octosql.Value) (octosql.Value, error) {
+						if values[1].Int < 0 {
+							return octosql.ZeroValue, fmt.Errorf("substr start index must be non-negative, got %d", values[1].Int)
+						}
+						if values[2].Int < 0 {
+							return octosql.ZeroValue, fmt.Errorf("substr length must be non-negative, got %d", values[2].Int)
+						}
 						if int64(len(values[0].Str)) <= values[1].Int {
 							return octosql.NewString(""), nil
 						}
 						end := values[1].Int + values[2].Int
-						if end > int64(len(values[0].Str)) {
+						if end > int64(len(values[0].Str)) || end < values[1].Int {
 							end = int64(len(values[0].Str))
 						}
 						return octosql.NewString(values[0].Str[values[1].Int:end]), nil
